@@ -194,6 +194,10 @@ func (s *Swarm[T]) handleMessage(ctx context.Context, msg p2p.Message[T]) error 
 	if out != nil {
 		remoteKey := cs.Channel.RemoteKey()
 		srcID := s.config.fingerprinter(&remoteKey)
+		if !s.config.whitelist(Addr[T]{ID: srcID, Addr: msg.Src}) {
+			// the whitelist is for every incoming message, also on channels which we have initiated.
+			return nil
+		}
 		return s.hub.Deliver(ctx, p2p.Message[Addr[T]]{
 			Src:     Addr[T]{ID: srcID, Addr: msg.Src},
 			Dst:     Addr[T]{ID: s.localID, Addr: msg.Dst},
